@@ -226,6 +226,36 @@
                 n += 1;
             }
         }}}}}
+        // lookups on literal containers (hits and misses) and else-less inline ifs as operands, under every undefined mode:
+        // a constant sub-expression whose value is undefined must behave like the same value reached through a variable
+        {
+            use crate::UndefinedBehavior as UB;
+            let lookups: &[(&str, &str, &str)] = &[
+                // (all-literal form, form with the container / condition in a variable, variable's literal)
+                ("{'a': 1}.a", "m.a", "{'a': 1}"), ("{'a': 1}.b", "m.b", "{'a': 1}"), ("{'a': 1}['b']", "m['b']", "{'a': 1}"), ("{'a': 1}['a']", "m['a']", "{'a': 1}"),
+                ("[1, 2][0]", "m[0]", "[1, 2]"), ("[1, 2][5]", "m[5]", "[1, 2]"), ("[1, 2][-9]", "m[-9]", "[1, 2]"), ("'abc'[9]", "m[9]", "'abc'"), ("'abc'[1]", "m[1]", "'abc'"),
+                ("{}.x", "m.x", "{}"), ("{}.x.y", "m.x.y", "{}"), ("[[1]][0][3]", "m[0][3]", "[[1]]"), ("(1 if false)", "(1 if m)", "false"), ("(1 if true)", "(1 if m)", "true"),
+                ("[1, 2][1:][4]", "m[1:][4]", "[1, 2]"), ("(1, 2)[7]", "m[7]", "(1, 2)"),
+            ];
+            let shells = ["not X", "X and 1", "1 and X", "X or 1", "0 or X", "X == 1", "X != 1", "X < 1", "1 >= X", "X in [1, none]", "X in 'abc'", "X not in [1]", "1 in X", "X ~ 'a'", "'a' ~ X",
+                          "X + 1", "X * 2", "-X", "X|default(5)", "X is defined", "X is none", "X|string", "X", "[X]|length", "{'k': X}|length", "X if true else 2", "2 if X else 3", "X[0]", "X.attr", "1 < X < 3", "X|length"];
+            for mode in [UB::Lenient, UB::Strict, UB::SemiStrict, UB::Chainable] {
+                let mut envm = Environment::new();
+                envm.set_undefined_behavior(mode);
+                for (lit, var, mval) in lookups { for shell in shells {
+                    let a = format!("{{{{ {} }}}}", shell.replace('X', &format!("({lit})")));
+                    let b = format!("{{{{ {} }}}}", shell.replace('X', &format!("({var})")));
+                    let run = |src: &str, ctx: Value| -> Result<String, crate::ErrorKind> {
+                        let t = envm.template_from_str(src).unwrap_or_else(|e| panic!("load of {src:?} failed: {e}"));
+                        t.render(ctx).map_err(|e| e.kind())
+                    };
+                    let ra = run(&a, crate::context! {});
+                    let rb = run(&b, crate::context! { m => value_of(mval) });
+                    assert!(ra == rb, "{mode:?}: literal form {a} gives {ra:?}, with the container in a variable {b} gives {rb:?}");
+                    n += 1;
+                }}
+            }
+        }
         // keyword arguments with literal values (incl. negated numbers and container literals) versus variables
         let mut env2 = Environment::new();
         env2.add_function("show", |args: crate::value::Rest<Value>| -> String { format!("{:?}", args.0) });
